@@ -44,7 +44,9 @@ Cases ==
     \cup {[gen |-> 19, p |-> <<2, a, b, f>>] : a \in N2, b \in 0..4, f \in {0, 1, 2, 3}}
     \cup {[gen |-> 20, p |-> <<r, a, b, f>>] : r \in {1, 3}, a \in {1, 2, 3}, b \in {0, 1}, f \in {0, 1}}
     \cup {[gen |-> 21, p |-> <<2, 0, 0, 0>>]}
-    \cup {[gen |-> gn, p |-> <<2, a, b, 0>>] : gn \in {12, 13}, a \in 0..5, b \in N2}
+    \* flag of 12/13: the form in which the outline is handed over - 0 as is, 1 closed polyline (first point repeated
+    \* at the end), 2 a point twice in a row, 3 opposite direction, 4 closed and opposite
+    \cup {[gen |-> gn, p |-> <<2, a, b, f>>] : gn \in {12, 13}, a \in 0..5, b \in N2, f \in 0..4}
     \cup {[gen |-> 14, p |-> <<2, a, 0, 0>>] : a \in N1}
     \cup {[gen |-> 15, p |-> <<2, a, b, f>>] : a \in N2, b \in {0, 1}, f \in {0, 1}}
     \cup {[gen |-> 16, p |-> <<2, a, 0, 0>>] : a \in 0..8}
